@@ -16,6 +16,7 @@ from engine.shape import key, args, for_loop
 
 INST = [facts.INST + '/ds.cpp']
 LIMIT = 4
+MAXN = 6
 
 
 def label(fn):
@@ -117,6 +118,8 @@ class CellInterp(fd.Interp):
                 return self.st[nm]
             if nm == 'interiorCellNeighborsLimit_':
                 return LIMIT
+            if nm == 'maxNeighbors_':
+                return MAXN                   # 2 * dimension: the largest possible count, above the configurable limit
             if nm in ('heapElement', 'coord', 'eventCellUpdateData_', 'external_', 'internal_', 'eventCellUpdate_'):
                 return ('obj', nm)
         if n['k'] == 'DeclRefExpr':
